@@ -151,6 +151,11 @@ func BubbleOthers(self int, keep func(*G) bool) []G {
 		if len(g.Frames) > 0 && (strings.HasPrefix(g.Frames[0], "internal/synctest.") || strings.HasPrefix(g.Frames[0], "testing/synctest.")) {
 			continue
 		}
+		// a goroutine whose function has returned and that is on its way out (seen "runnable" in
+		// runtime.goexit1 once in ~10^6 censuses) is not left behind by anybody
+		if len(g.Frames) > 0 && strings.HasPrefix(g.Frames[0], "runtime.goexit") {
+			continue
+		}
 		if keep != nil && !keep(&g) {
 			continue
 		}
